@@ -38,7 +38,7 @@ class G:
 
 ENTRIES_TEXT = ["str", "string", "refstring", "fromstr"]
 ENTRIES_BYTES = ["bytes", "vec"]
-ENTRIES_SYMS = ["collect", "fromvec", "extend"]
+ENTRIES_SYMS = ["collect", "fromvec", "extend", "collectf", "collectn"]
 
 
 def boundary_lengths(w, words=3, delta=2):
@@ -248,6 +248,8 @@ def rand_value(g, c, depth, maxlen=70):
         return f"push {r.randrange(50)} {v}", n + 1
     if k == 5:
         m = r.randrange(0, 6)
+        if r.random() < 0.5:
+            return f"extk {r.choice(['filter', 'takewhile', 'fromfn', 'trait'])} {hx(g.text(c, m))} {v}", n + m
         return f"ext {hx(g.text(c, m))} {v}", n + m
     if k in (6, 7):
         e, m = rand_slice(g, c, depth - 1, 20)
@@ -369,6 +371,12 @@ def gen_C06(g, tier):
                 if m >= 0:
                     lines.append(f"{c} show trunc {m} {base}")
             lines.append(f"{c} show clear {base}")
+            for kind in ("filter", "takewhile", "fromfn", "trait"):
+                for m in (0, 1, 3, 64 // w + 1):
+                    lines.append(f"{c} show extk {kind} {hx(g.text(c, m))} {base}")
+                    lines.append(f"{c} show push 1 extk {kind} {hx(g.text(c, m))} {base}")
+            for e in ("collectf", "collectn"):
+                lines.append(f"{c} show push 0 p {e} {hx(t)}")
             # out-of-bounds arguments
             lines.append(f"{c} show insert {n + 1} {base} p str -")
             lines.append(f"{c} show remove r 0 {n + 1} {base}")
@@ -494,8 +502,8 @@ def gen_C02(g, tier):
             leads = [0, 1, per // 2, per - 1] if tier == "quick" else list(range(0, per + 2))
             for lead in leads:
                 a = offset_slice(g, c, t, lead)
-                lines.append(f"{c} hash {a}")
-                lines.append(f"{c} hashv own {a}")
+                lines.append(f"{c} hasheq {a} {offset_slice(g, c, t, r.choice(leads))}")
+                lines.append(f"{c} hasheq {a} own {a}")
                 for (label, t2) in variants_of(g, c, t):
                     lead2 = r.choice(leads)
                     b = offset_slice(g, c, t2, lead2)
@@ -515,6 +523,18 @@ def gen_C02(g, tier):
                 ks = " ".join(f"p str {hx(k)}" for k in keys)
                 lines.append(f"{c} mapget {len(keys)} {ks} {a}")
                 lines.append(f"{c} mapget {len(keys)} {ks} {offset_slice(g, c, g.text(c, n), lead)}")
+        # owned values with a history (truncated, drained, rebuilt from raw words, reversed, extended ...) equal,
+        # hash like, order like and are found in a map like a sequence freshly built from the same symbols
+        for _ in range(40 if tier == "quick" else 600):
+            v, n = rand_value(g, c, r.randrange(1, 6), 3 * per)
+            lines.append(f"{c} eqfresh {v}")
+        for n in (per - 1, per, per + 1, 2 * per + 1):
+            t = g.text(c, n + 3)
+            lines.append(f"{c} eqfresh trunc {n} p str {hx(t)}")
+            lines.append(f"{c} eqfresh remove r {n} {n + 2} p str {hx(t)}")
+            lines.append(f"{c} eqfresh fromraw {n} p str {hx(t)}")
+            lines.append(f"{c} eq seq_seq trunc {n} p str {hx(t)} p str {hx(t[:n])}")
+            lines.append(f"{c} eq refseq_seq remove rf {n} 0 p str {hx(t)} p str {hx(t[:n])}")
         # k-mers: every K that fits, every storage
         for (st, sbits) in STORAGES:
             for K in fitting_ks(w, sbits, tier, r):
@@ -522,8 +542,7 @@ def gen_C02(g, tier):
                 v = g.value(c, t)
                 lead = r.randrange(0, per + 1)
                 sl = offset_slice(g, c, t, lead)
-                lines.append(f"{c} kmer hash {K} {st} {v}")
-                lines.append(f"{c} hash {sl}")
+                lines.append(f"{c} kmer hasheq {K} {st} {v} {sl}")
                 lines.append(f"{c} kmer try {K} {st} {sl}")
                 for (label, t2) in variants_of(g, c, t):
                     for pr in ("slice", "refslice"):
@@ -723,6 +742,14 @@ def gen_C10(g, tier):
                 tb = ta[:i] + [r.choice(g.alpha[c])] + ta[i + 1:]
             lines.append(f"{c} cmp p str {hx(ta)} own {offset_slice(g, c, tb, r.randrange(0, per + 1))}")
             lines.append(f"{c} cmp p str {hx(ta)} p str {hx(g.text(c, r.randrange(0, 2 * per)))}")
+        for _ in range(20 if tier == "quick" else 300):
+            v, n = rand_value(g, c, r.randrange(1, 5), 3 * per)
+            lines.append(f"{c} eqfresh {v}")
+            lines.append(f"{c} cmp {v} p str {hx(g.text(c, n))}")
+        for n in (per - 1, per, per + 1):
+            t = g.text(c, n + 2)
+            lines.append(f"{c} cmp trunc {n} p str {hx(t)} p str {hx(t[:n])}")
+            lines.append(f"{c} cmp trunc {n} p str {hx(t)} p str {hx(g.text(c, n))}")
         for K in fitting_ks(w, 64, tier, r):
             for _ in range(2 if tier == "quick" else 10):
                 n = r.randrange(K, K + 12)
@@ -950,7 +977,6 @@ def gen_C16(g, tier):
             t = [r.choice(alpha) for _ in range(n)]
             lines.append(f"{c} macro {hx(t)}")
             lines.append(f"{c} show p str {hx(t)}")
-            lines.append(f"{c} hash p str {hx(t)}")
             if n:
                 pos = r.randrange(n + 1)
                 bad = r.choice(list(b"acgtnNUXxZ0 9\n-.*") + [0xc3])
